@@ -15,6 +15,21 @@ every configuration and all observations must be pairwise identical.
           EdDSA, key export/import bytes, point decompression, Primality verdicts on pseudoprime
           families, prime generation from explicit entropy, RSA.construct factor recovery - the
           transcripts must be byte-identical                                      (_c16_script)
+
+thorough tier, wave 2 (every added dimension is enumerated completely; described in coverage.grid.*.wave2):
+  A  every CFB segment size; parameter variants of every mode (IV values, CTR nonce lengths / initial values / Counter
+     layouts incl. little endian, CCM/EAX/GCM/OCB nonce x tag lengths, SIV nonce x components) on every length 0..273;
+     the one-shot AEAD entry points; long inputs around every power of two up to 2^20 with large-piece segmentation;
+     every (input, output) buffer address mod 16 and in-place operation; the AESAVS VarKey / one-byte-value key families
+     on a message made of the VarTxt / one-byte-value blocks
+  B  nonces 12 and 16 on AAD 0..273 x message 0..273; every nonce length 1..130 and 2^k+-1 up to 2^16; every tag length;
+     long AAD/messages up to 2^16+49; every buffer placement; 32 GHASH keys; the GHASH function itself through the seam
+     _mode_gcm._GHASH on a basis of GF(2^128) multiplication (single-bit H x single-bit X at every block position of
+     1..9-block messages) and every two-call split of 0..40 blocks at every data alignment
+  C  249-value operand alphabet (32-bit slot and 64-bit limb boundaries of the GMP glue); odd moduli at every word count
+     1..33 and the special primes of mont.c (P-256, P-384, P-521, Ed448) with neighbours for pow / _mult_modulo_bytes
+  D  five more transcript sections: rsa-sign2, dsa2, ecc2, primality2 (exhaustive range to 2^19), keygen
+     (RSA/DSA/ElGamal/ECC generation from explicit entropy)
 """
 import os
 import subprocess
@@ -33,8 +48,11 @@ RULE = ("complete enumeration of the stated grids; every case is executed under 
         "behaviour classes actually observed: AES (mode, key size, number of blocks, partial block?, offset, "
         "direction, segmentation, outcome class), GCM (nonce length, AAD blocks, partial?, message blocks, "
         "partial?, offset, segmentation, direction, outcome), integers (operation, outcome type/exception, "
-        "number of violated preconditions), transcripts (item family, outcome class)")
-BUDGET = {"quick": 240, "thorough": 1800}
+        "number of violated preconditions), transcripts (item family, outcome class); thorough wave 2 adds to the AES "
+        "class the parameter variant (then without key size, with a coarser block count: 0, 1, 2-7, 8, 9-15, 16, 17+) "
+        "or the buffer placement (then without key size and block count), and to the GCM class the tag length or the "
+        "buffer placement (then without block counts)")
+BUDGET = {"quick": 240, "thorough": 2400}
 
 VERIF_DIR = os.path.dirname(os.path.dirname(os.path.dirname(os.path.abspath(__file__))))
 CONFIGS = ("default", "nogmp", "native")
@@ -160,6 +178,70 @@ def transcript_worker(shards):
 
 
 # ---------------------------------------------------------------------------
+# thorough tier, part A ------------------------------------------------------------------------
+# long inputs: around every power of two 2^9..2^20, with 0, 1 and 7 blocks left over after the 8-block
+# (128 byte) loop of AESNI.c / the 8-block key stream of raw_ctr.c, and a partial block
+LEN_LONG = sorted(set(2 ** k + d for k in range(9, 21) for d in (-16, -1, 0, 1, 16, 112, 113)))
+LEN_ALIGN = [0, 1, 15, 16, 17, 31, 32, 33, 112, 127, 128, 129, 143, 144, 145, 255, 256, 257, 272, 273]
+PLACES_OUT = [(i, o) for i in range(16) for o in range(16)] + [(i, "inplace") for i in range(16)]
+PLACES_IN = [(i, None) for i in range(16)]
+
+
+def aes_shards_deep():
+    """the thorough-only grids of part A (heaviest first)"""
+    sh = []
+    honour = list(A.HONOUR) + list(A.CFB_EXTRA)
+    # long: every mode, every key size, seeded key, offsets 0/1; one call + large pieces (+ the two small-piece
+    # segmentations up to 8193 bytes)
+    for mode in honour:
+        if mode == "CTRwrap":
+            continue                              # OverflowError after 80 bytes: nothing long to compare
+        heavy = mode.startswith("CFB") and int(mode[3:]) <= 32
+        for klen in (16, 24, 32):
+            for part in chunks(LEN_LONG, 6 if heavy else 2):
+                sh.append((3 * sum(part) * (128 // int(mode[3:]) if mode.startswith("CFB") else 1),
+                           [(mode, klen, 3, part, (0, 1), {"grid": "long", "incs": (0, 3), "incs_short": (0, 1, 2, 3)})]))
+    # short counters on long inputs: the key stream of a 1-byte (2-byte) counter is exhausted after 4096 bytes (1 MiB)
+    for pv in (["ctr", 15, 0], ["ctr", 15, 253], ["ctr", 14, 0], ["ctr", 14, 65533]):
+        for klen in (16, 24, 32):
+            sh.append((3 * sum(LEN_LONG), [("CTR", klen, 3, LEN_LONG, (0, 1),
+                                            {"grid": "long", "pv": pv, "incs": (0, 3), "incs_short": (0, 1, 2, 3)})]))
+    # parameter variants: every variant x key size x every length 0..273 x offsets 0/1, seeded key,
+    # all segmentations and the one-shot AEAD entry points
+    for mode in honour:
+        pvs = A.param_variants(mode)
+        if mode in A.CFB_EXTRA:
+            pvs = [None] + pvs                    # these segment sizes have no basic grid
+        if not pvs:
+            continue                              # ECB, CTRwrap: nothing but the key
+        for klen in (16, 24, 32):
+            for grp in chunks(pvs, max(1, len(pvs) // 3)):
+                sh.append((2 * 10 ** 6 * len(grp),
+                           [(mode, klen, 3, LEN_ALL, (0, 1), {"grid": "params", "pv": pv, "incs": (0, 1, 2, 4)})
+                            for pv in grp]))
+    # the one-shot entry points on the basic parameters
+    for mode in ("CCM", "EAX", "GCM", "OCB"):
+        sh.append((10 ** 6, [(mode, klen, 3, LEN_ALL, (0, 1), {"grid": "oneshot", "incs": (4,)}) for klen in (16, 24, 32)]))
+    # alignment: every (input address, output address) mod 16 and in-place operation
+    for mode in honour:
+        places = PLACES_OUT if (mode in A.OUT_OK or mode == "SIV") else PLACES_IN
+        for klen in (16, 24, 32):
+            for grp in chunks(places, 4 if len(places) > 16 else 1):
+                sh.append((len(grp) * 15000,
+                           [(mode, klen, 3, LEN_ALIGN, (0,), {"grid": "align", "places": grp})]))
+    # key / block value families on a 6144-byte message holding the 384 block values
+    for mode in honour:
+        for klen in (16, 24, 32):
+            kb = (klen * 2 if mode == "SIV" else klen) * 8
+            fams = [kv for kv in range(4)] + [("varkey", lo, min(lo + 64, kb + 1)) for lo in range(1, kb + 1, 64)] + \
+                   [("bytekey", lo, lo + 64) for lo in range(0, 256, 64)]
+            for grp in chunks(fams, 2):
+                sh.append((len(grp) * 64 * 12000,
+                           [(mode, klen, f, [6144], (0,), {"grid": "values", "data": "kat"}) for f in grp]))
+    sh.sort(key=lambda x: -x[0])
+    return [x[1] for x in sh]
+
+
 def aes_shards(quick):
     sh = []
     for mode in A.MODES:
@@ -175,7 +257,12 @@ def aes_shards(quick):
             else:
                 for kv in range(4):
                     sh.append([(mode, klen, kv, LEN_ALL, (0, 1, 2, 3))])
+    if not quick:
+        sh = aes_shards_deep() + sh
     return sh
+
+
+GCM_ALL2 = list(range(0, 274))                # thorough: nonces 12 and 16 get the full cross product up to 17 blocks
 
 
 def gcm_shards(quick):
@@ -194,17 +281,46 @@ def gcm_shards(quick):
         for ki in range(10):
             sh.append([("full", ki, nl, A.BAND, A.BAND, (0, 1), four) for nl in (12, 16)])
     else:
+        # nonce 12 and 16: AAD 0..273 x message 0..273 (the square 0..130 x 0..130 is in the shards below)
+        for nl in (12, 16):
+            for c in chunks(GCM_ALL2, 40):
+                sh.append([("full", 3, nl, c, GCM_ALL2, (0,), four, {"skip_below": 130})])
         for nl in A.GCM_NONCES_FULL:
             for c in chunks(allr, 6):
                 sh.append([("full", 3, nl, c, allr, (0,), four)])
             sh.append([("band", 3, nl, allr, allr, (1, 2, 3), two)])
-        for ki in range(10):
+        # every tag length, on the band grid
+        for ml in range(4, 16):
+            sh.append([("band", 3, nl, allr, allr, (0,), two, {"mac_len": ml}) for nl in (12, 16)])
+        # long AAD / message
+        long_opts = {"incs": (0, 3), "incs_short": (0, 1, 2, 3)}
+        for nl in (12, 16):
+            cf = four if nl == 12 else two
+            for c in chunks(A.GCM_LONG, 6):
+                sh.append([("full", 3, nl, c, A.BAND, (0, 1), cf, long_opts),
+                           ("full", 3, nl, A.BAND, c, (0, 1), cf, long_opts)])
+            for c in chunks(A.GCM_LONG_SMALL, 6):
+                sh.append([("full", 3, nl, c, A.GCM_LONG_SMALL, (0,), cf, long_opts)])
+        # every alignment of the AAD/message and of the output buffer, in-place operation
+        for grp in chunks(PLACES_OUT, 16):
+            sh.append([("full", 3, nl, A.BAND, A.BAND, (0,), two, {"places": grp}) for nl in (12, 16)])
+        # every nonce length 1..130 and around the powers of two up to 2^16
+        others = [nl for nl in A.GCM_NONCES_ALL if nl not in A.GCM_NONCES_FULL]
+        for grp in chunks(others, 12):
+            sh.append([("full", 3, nl, A.BAND, A.BAND, (0, 1), four) for nl in grp])
+        # GHASH keys
+        for ki in range(A.GCM_KEYS_FULL):
             sh.append([("full", ki, nl, A.BAND, A.BAND, (0, 1, 2, 3), four) for nl in (12, 16, 17)])
+        sh = sh + A.ghash_shards()
     return sh
 
 
 TRANSCRIPT_PARTS = {"quick": {"rsa-sign": 4, "rsa-keys": 6, "dsa": 8, "ecc": 4, "primality": 6, "misc": 1},
-                    "thorough": {"rsa-sign": 8, "rsa-keys": 8, "dsa": 12, "ecc": 6, "primality": 40, "misc": 1}}
+                    "thorough": {"rsa-sign": 8, "rsa-keys": 8, "dsa": 12, "ecc": 6, "primality": 40, "misc": 1,
+                                 # wave 2 (thorough only); keygen: one item per shard (0 = number of items)
+                                 "keygen": 0, "primality2": 120, "rsa-sign2": 12, "ecc2": 12, "dsa2": 3}}
+SECTION_ORDER = ("keygen", "primality2", "dsa", "rsa-keys", "primality", "rsa-sign2", "ecc2", "rsa-sign", "ecc", "dsa2",
+                 "misc")
 
 
 def run(ctx):
@@ -212,11 +328,15 @@ def run(ctx):
     a = ctx.acc
     phases = {}
 
+    cpus = {}
+
     def timed(name, fn, shards):
-        t = time.time()
+        t, c = time.time(), sum(os.times()[:4])
         ctx.pmap(fn, shards)
         phases[name] = round(time.time() - t, 1)
+        cpus[name] = round(sum(os.times()[:4]) - c, 1)
     ctx.coverage_extra["phase_wall_s"] = phases
+    ctx.coverage_extra["phase_cpu_s"] = cpus
 
     # ---- what exists on this machine ---------------------------------------------------
     have_ni, have_clmul = A.cpu()
@@ -249,8 +369,8 @@ def run(ctx):
     # ---- D first (subprocess start-up latency overlaps nothing else, longest shards first) ----
     tier = ctx.tier
     tsh = []
-    for sec in ("dsa", "rsa-keys", "primality", "rsa-sign", "ecc", "misc"):
-        n = TRANSCRIPT_PARTS[tier][sec]
+    for sec in (("dsa", "rsa-keys", "primality", "rsa-sign", "ecc", "misc") if q else SECTION_ORDER):
+        n = TRANSCRIPT_PARTS[tier][sec] or len(list(S.SECTIONS[sec](tier)))
         tsh += [[(sec, p, n, tier)] for p in range(n)]
     timed("D-transcripts", transcript_worker, tsh)
     timed("A-aesni", A.aes_worker, aes_shards(q))
@@ -281,7 +401,47 @@ def run(ctx):
     outc = set(c[-1] for c in d.get("aes_classes", ()))
     ctx.require("ok" in outc and "raises:ValueError" in outc, "AES part saw outcomes %s only" % sorted(outc))
     ctx.require(len(d.get("aes_classes", ())) >= (3000 if q else 3000), "AES part: too few behaviour classes")
+    if not q and not a.caps:
+        # wave 2 grids of part A: every stated element was really executed
+        for mode in A.CFB_EXTRA:
+            recs = set(r[1:] for r in d.get("aes_backend", ()) if r[0] == mode)
+            if ni_lib:
+                ctx.require(recs == {(True, True, False), (False, False, True)},
+                            "use_aesni is not effective for %s: %s" % (mode, sorted(recs)))
+        npv = sum(len(A.param_variants(m)) for m in list(A.HONOUR) + list(A.CFB_EXTRA))
+        ctx.require(len(d.get("aes_param_variants", ())) == npv,
+                    "parameter variants executed: %d, stated: %d" % (len(d.get("aes_param_variants", ())), npv))
+        ctx.require(set(d.get("aes_places", ())) == set(PLACES_OUT) | set(PLACES_IN),
+                    "buffer placements executed: %d of %d" % (len(d.get("aes_places", ())), len(PLACES_OUT) + len(PLACES_IN)))
+        ctx.require(set(d.get("aes_long_lengths", ())) == set(LEN_LONG) | {6144},
+                    "long lengths executed: %s" % sorted(d.get("aes_long_lengths", ()))[-3:])
+        # (the zero and ones keys of the alphabet are also one-byte-value keys; so is the last VarKey key)
+        nkeys = sum(8 * (klen * (2 if m == "SIV" else 1)) + 256 + 1
+                    for m in list(A.HONOUR) + list(A.CFB_EXTRA) for klen in (16, 24, 32))
+        ctx.require(len(d.get("aes_value_keys", ())) == nkeys,
+                    "value-family keys executed: %d, stated: %d" % (len(d.get("aes_value_keys", ())), nkeys))
+        incs_seen = set(c[6] for c in d.get("aes_classes", ()))
+        ctx.require(incs_seen >= {0, 1, 2, 3, 4}, "segmentations seen: %s" % sorted(incs_seen))
+        ctx.require("raises:OverflowError" in outc, "no counter wrap-around (OverflowError) among the CTR variants")
     # B
+    if not q and not a.caps:
+        ctx.require(set(d.get("gcm_nonce_lens", ())) == set(A.GCM_NONCES_ALL),
+                    "GCM nonce lengths executed: %d of %d" % (len(d.get("gcm_nonce_lens", ())), len(A.GCM_NONCES_ALL)))
+        ctx.require(set(d.get("gcm_mac_lens", ())) == set(range(4, 17)), "GCM tag lengths executed: %s"
+                    % sorted(d.get("gcm_mac_lens", ())))
+        ctx.require(set(d.get("gcm_places", ())) == set(PLACES_OUT), "GCM buffer placements executed: %d of %d"
+                    % (len(d.get("gcm_places", ())), len(PLACES_OUT)))
+        ctx.require(set(d.get("gcm_long_lengths", ())) == set(x for x in A.GCM_LONG if x > 273),
+                    "GCM long lengths executed: %d of %d" % (len(d.get("gcm_long_lengths", ())), len(A.GCM_LONG)))
+        if clmul_lib:
+            nh, nx = len(A.ghash_h_family()), len(A.ghash_x_family())
+            nb = A.GHASH_MAX_BLOCKS
+            cb = A.GHASH_CHUNK_BLOCKS
+            expect = nh * nx * nb * (nb + 1) // 2 + (nh - 128) * 17 * (cb + 1) * (cb + 2) // 2
+            ctx.require(a.n.get("ghash_pairs", 0) == expect, "GHASH seam: %d pairs compared, %d stated"
+                        % (a.n.get("ghash_pairs", 0), expect))
+            ctx.require(set(d.get("ghash_align", ())) == set(range(16)), "GHASH data alignments: %s"
+                        % sorted(d.get("ghash_align", ())))
     if clmul_lib:
         ctx.require(set(d.get("gcm_backend", ())) == {(True, "clmul"), (False, "portable")},
                     "use_clmul did not select the expected GHASH implementations: %s" % sorted(d.get("gcm_backend", ())))
@@ -300,6 +460,10 @@ def run(ctx):
     tags = d.get("int_tags", set())
     ctx.require(("pow", "modulus-1") in tags and ("pow", "negative-base-odd-modulus") in tags,
                 "the inputs of known defect #18 (pow modulus 1 / negative base, odd modulus) were not enumerated")
+    if not q:
+        ctx.require(("pow", "special-modulus") in tags and ("_mult_modulo_bytes", "special-modulus") in tags,
+                    "the special moduli of mont.c (P-256, P-384, P-521, Ed448) were not enumerated")
+        ctx.require(len(I.alphabet(q)) >= 240 and len(I.moduli(q)) >= 110, "integer alphabets smaller than stated")
     # D
     tb = dict(d.get("transcript_backends", ()))
     ctx.coverage_extra["transcript_backends"] = tb
@@ -313,8 +477,12 @@ def run(ctx):
         ctx.assume("the custom C back-end (_modexp) could not be loaded: PYCRYPTODOME_DISABLE_GMP=1 selects the "
                    "native back-end")
     tc = d.get("transcript_classes", set())
-    ctx.require(a.n.get("transcript_items", 0) >= (900 if q else 1500), "too few transcript items (%d)"
+    ctx.require(a.n.get("transcript_items", 0) >= (900 if q else 6500), "too few transcript items (%d)"
                 % a.n.get("transcript_items", 0))
+    if not q:
+        stems = set(c[0] for c in tc)
+        ctx.require({"keygen", "ecc-point", "ecc-key", "ecdsa-verify", "dsa-verify", "rsa-enc", "primality"} <= stems,
+                    "transcript item families of wave 2 missing: %s" % sorted(stems))
     ctx.require(any(c[1] == "ok" for c in tc) and any(c[1] != "ok" for c in tc),
                 "transcripts contain no refusal or no success")
 
@@ -337,19 +505,107 @@ def run(ctx):
                   "full_cross_product_for": "nonce 12, offset 0, one-call segmentation (the two incremental "
                   "segmentations on the band grid)" if q else "every nonce length, offset 0, 4 configurations",
                   "band_grid": "other nonce lengths / offsets 1..3: (a, m) with a or m in %s" % (list(A.BAND),),
-                  "ghash_keys": 10, "pairs_compared": a.n.get("gcm_pairs", 0)},
-            "C": {"operand_alphabet_size": len(V), "k": list(I.KS_QUICK if q else I.KS_FULL),
+                  "ghash_keys": 10 if q else A.GCM_KEYS_FULL, "pairs_compared": a.n.get("gcm_pairs", 0)},
+            "C": {"operand_alphabet_size": len(V), "k": list(I.KS_QUICK if q else I.KS_FULL + I.KS_DEEP),
                   "operations": len(I.OPS), "binary_ops_on_all_ordered_pairs": len(I.BIN_OPS),
                   "moduli": len(I.moduli(q)), "shift_counts": list(I.SHIFTS),
                   "cases": a.n.get("int_cases", 0),
                   "excluded_two_preconditions": a.n.get("int_excluded_multi_precondition", 0),
                   "pow_cost_restriction_skipped": a.n.get("int_pow_skipped_cost", 0)},
-            "D": {"configurations": list(CONFIGS), "sections": sorted(S.SECTIONS), "items": a.n.get("transcript_items", 0),
+            "D": {"configurations": list(CONFIGS), "sections": sorted(TRANSCRIPT_PARTS[tier]),
+                  "items": a.n.get("transcript_items", 0),
                   "subprocesses": a.n.get("transcript_subprocesses", 0)},
         },
     })
+    if not q:
+        g = ctx.coverage_extra["grid"]
+        allm = list(A.HONOUR) + list(A.CFB_EXTRA)
+        g["A"]["wave2"] = {
+            "cfb_segment_sizes": "all of 8, 16, .., 128 (%d more mode variants: %s)" % (len(A.CFB_EXTRA), list(A.CFB_EXTRA)),
+            "params": {"what": "every parameter variant x 3 key sizes x every length 0..273 x offsets 0,1, seeded key, "
+                               "segmentations one call / the two incremental / one-shot encrypt_and_digest+decrypt_and_verify",
+                       "variants_per_mode": {m: len(A.param_variants(m)) for m in allm if A.param_variants(m)},
+                       "variants": "IV value zero/ones/seeded (CBC, CFB*, OFB, OPENPGP); CTR nonce length 0..15 x initial "
+                                   "value {0, 255, max-3, max-1} and 11 Counter.new layouts x big/little endian x 3 "
+                                   "initial values; CCM nonce 7..13 x tag 4,6,..,16; EAX nonce {1,15,16,17,33} x tag "
+                                   "2..16; GCM nonce {1,8,12,13,16,17,33} x tag 4..16; OCB nonce 1..15 x tag 8..16; "
+                                   "SIV nonce {none,1,16,17} x 0..3 associated-data components",
+                       "cases": a.n.get("aes_cases_params", 0)},
+            "oneshot": {"what": "encrypt_and_digest / decrypt_and_verify on the basic parameters of CCM, EAX, GCM, OCB, "
+                                "3 key sizes x 0..273 x offsets 0,1", "cases": a.n.get("aes_cases_oneshot", 0)},
+            "long": {"lengths": "2^k + d for k = 9..20, d in {-16, -1, 0, 1, 16, 112, 113} (%d lengths up to %d bytes)"
+                                % (len(LEN_LONG), max(LEN_LONG)),
+                     "what": "%d mode variants (all but CTRwrap) and CTR with a 1-byte / 2-byte counter (initial value 0 "
+                             "and max-3: key stream exhausted after 4096 bytes / 1 MiB, OverflowError) x 3 key sizes x "
+                             "offsets 0,1, seeded key; one call and "
+                             "large pieces %s / %s; up to 8193 bytes also the two small-piece segmentations"
+                             % (len(allm) - 1, list(A.PAT_LONG_STREAM), list(A.PAT_LONG_BLOCK)),
+                     "cases": a.n.get("aes_cases_long", 0)},
+            "align": {"placements": "input address mod 16 in 0..15 x output address mod 16 in 0..15, plus in-place "
+                                    "(output= the input buffer) at 16 input alignments: %d; modes without output= "
+                                    "(OPENPGP, OCB): 16 input alignments" % len(PLACES_OUT),
+                      "lengths": LEN_ALIGN, "what": "every mode variant x 3 key sizes, seeded key, all segmentations",
+                      "cases": a.n.get("aes_cases_align", 0)},
+            "values": {"keys": "per mode variant and key size: the 4 alphabet keys, every key with i leading one bits "
+                               "(AESAVS VarKey, i = 1..key bits) and every key made of one repeated byte (256)",
+                       "distinct_keys": len(d.get("aes_value_keys", ())),
+                       "data": "6144 bytes = the 128 leading-ones blocks (AESAVS VarTxt) + the 256 one-byte-value blocks",
+                       "cases": a.n.get("aes_cases_values", 0)},
+        }
+        g["B"]["wave2"] = {
+            "nonce12_and_16_full_cross_product": "AAD 0..273 x message 0..273, 4 configurations, all segmentations",
+            "nonce_lengths_all": "every nonce length 1..130 and 2^k-1, 2^k, 2^k+1 for k = 8..16 (%d lengths) on "
+                                 "AAD, message in %s, offsets 0,1, 4 configurations" % (len(A.GCM_NONCES_ALL), list(A.BAND)),
+            "mac_len": "every tag length 4..16 for nonce 12 and 16 on the band grid",
+            "long": "AAD or message in %s (%d lengths up to %d) against %s, and the cross product of the lengths up to "
+                    "%d; nonce 12 (4 configurations) and 16; offsets 0,1; one call, large pieces, small pieces up to 8193"
+                    % ("2^k + {-1,0,1,16,48,49}, k = 8..16", len(A.GCM_LONG), max(A.GCM_LONG), list(A.BAND),
+                       max(A.GCM_LONG_SMALL)),
+            "align": "%d placements (input x output address mod 16, in-place) x AAD, message in the band values, "
+                     "nonce 12 and 16" % len(PLACES_OUT),
+            "ghash_keys": "%d AES keys on the band x band grid, nonce 12/16/17, offsets 0..3, 4 configurations"
+                          % A.GCM_KEYS_FULL,
+            "ghash_seam": {"what": "_mode_gcm._GHASH(H, implementation) called directly, CLMUL against portable",
+                           "basis": "H in {128 single-bit values, 0, ones, ascending, 5 seeded} x messages of 1..%d "
+                                    "blocks that are zero except one block, at every position, holding one of %d "
+                                    "values (128 single bits, ones, seeded)" % (A.GHASH_MAX_BLOCKS,
+                                                                                len(A.ghash_x_family())),
+                           "chunking": "8 dense H x seeded data of 0..%d blocks x every split into two update() calls "
+                                       "x data address mod 16 in 0..15 and a bytes object" % A.GHASH_CHUNK_BLOCKS,
+                           "pairs_compared": a.n.get("ghash_pairs", 0)},
+        }
+        g["C"]["wave2"] = {
+            "operand_alphabet": "%d values for every operation but pow3/ipow3/_mult_modulo_bytes, which keep the %d-value "
+                                "alphabet of k = %s" % (len(V), len(I.pow_alphabet(q)), list(I.KS_FULL)),
+            "moduli": "odd moduli 2^(64w)-1 and 2^(64w-1)+1 at every word count w = 1..33 (even shapes at w in %s), "
+                      "the curve primes %s and their neighbours p-2, p+2"
+                      % (list(I.WORDS_OLD), "P-256, P-384, P-521, Ed448, 2^255-19, P-224, P-192"),
+            "sqrt_mod_curve_primes": "%d primes x (40 seeded residues and their squares + 8 boundary residues)"
+                                     % len(I.CURVE_PRIMES_DEEP),
+            "from_bytes_lengths": "0..139",
+        }
+        g["D"]["wave2"] = {
+            "rsa-sign2": "11 keys x 7 more hash functions x 4 messages (PKCS#1 v1.5, PSS); PSS salt lengths "
+                         "{0,1,hLen-1,hLen+1,max-1,max,max+1} x 3 hashes, MGF1 over another hash; OAEP 3 hashes x labels, "
+                         "EVERY plaintext length 0..max+1 for the first two keys (SHA-1, SHA-256), boundary lengths otherwise; "
+                         "PKCS#1 v1.5 encryption likewise; 14 more raw operands",
+            "dsa2": "6 more hash functions x 4 messages x 2 encodings, 9 more messages, 11 forged/altered signatures, "
+                    "per key size",
+            "ecc2": "ECDSA 6 hashes x 4 private keys x 3 messages x 5 curves; 8 boundary private keys per curve; forged "
+                    "signatures; 36 more decompression inputs + 5 boundary x; point arithmetic on 14 scalars x "
+                    "Integer/int on 7 curves; point validation; 9 more EdDSA and XDH seeds; ECDH pairs",
+            "primality2": "exhaustive range continued 2^17..2^19; 10 derived candidates per RSA fixture key, 8 per DSA "
+                          "key, large Mersenne numbers, neighbours/products of curve primes; generation: 3 more seeds per "
+                          "size, sizes up to 1024 bits, 5 more safe primes",
+            "keygen": "RSA.generate (1024..3072 bits, e in {3,17,257,65537}, 41 runs), DSA.generate (1024 x 8, 2048 x 3, "
+                      "4 with a given domain), ElGamal.generate (256 x 6, 320 x 2), ECC.generate (9 curves x 4) from "
+                      "explicit entropy: complete keys and the amount of entropy consumed",
+        }
     ctx.assume("data VALUES are limited to the alphabet (keys: zero/ones/ascending/seeded; data: ascending patterns); "
                "only shapes (lengths, offsets, segmentations, operand boundary values) are enumerated completely")
+    if not q:
+        ctx.assume("part B wave 2: the GHASH subkey H can be chosen only below AES.new (H = AES_K(0)); the single-bit H "
+                   "family is run through the internal class Crypto.Cipher._mode_gcm._GHASH, the object GCM itself uses")
     ctx.assume("part C: modular pow with an exponent above %d bits is crossed only with moduli of at most %s "
                "(cost bound; counted in pow_cost_restriction_skipped)" % ((130, "4 (and 1)") if q else (600, "1100 bits")))
     ctx.assume("part C: exception classes are compared only when the operands violate exactly one documented "
@@ -364,18 +620,25 @@ def run(ctx):
 
 def replay(case, acc):
     part = case["part"]
+    place = case.get("place")
     if part == "aes":
         A.install_counters()
-        A.aes_case(case["mode"], case["key"], case["data"], case["off"], acc)
+        A.aes_case(case["mode"], case["key"], case["data"], case["off"], acc, case.get("pv"), place,
+                   tuple(case.get("incs", (0, 1, 2))))
     elif part == "gcm":
         A.install_counters()
         A.gcm_case(case["key"], case["nonce"], case["aad"], case["msg"], case["off"],
-                   [tuple(c) for c in case["cfgs"]], acc, incs=tuple(case.get("incs", (0, 1, 2))))
+                   [tuple(c) for c in case["cfgs"]], acc, incs=tuple(case.get("incs", (0, 1, 2))),
+                   mac_len=case.get("mac_len", 16), place=place)
     elif part == "aes-crash":
-        A.aes_crash_case(case["mode"], case["key"], case["data"], case["off"], acc)
+        A.aes_crash_case(case["mode"], case["key"], case["data"], case["off"], acc, case.get("pv"), place,
+                         tuple(case.get("incs", (0, 1, 2))))
     elif part == "gcm-crash":
         A.gcm_crash_case(case["key"], case["nonce"], case["aad"], case["msg"], case["off"],
-                         [tuple(c) for c in case["cfgs"]], tuple(case.get("incs", (0, 1, 2))), acc)
+                         [tuple(c) for c in case["cfgs"]], tuple(case.get("incs", (0, 1, 2))), acc,
+                         case.get("mac_len", 16), place)
+    elif part == "ghash":
+        A.ghash_case(case["h"], case["chunks"], case["align"], acc, case.get("what", "basis"))
     elif part == "int":
         I.int_case(case["op"], tuple(case["args"]), acc)
     elif part == "transcript":
